@@ -122,11 +122,13 @@ CHECKS = {
         "technique": "explicit-state bounded model checking of the real Manifest: every edit sequence up to a depth over a hostile string alphabet x rollover ratios, reopen compared with a set/map model; every truncation length of MANIFEST",
         "design_ref": "DESIGN.md 4 (C13)",
         "jobs": {
-            "quick": [{"ws": "harness", "bin": "seq_mani", "args": [], "timeout": 1800}],
-            "thorough": [{"ws": "harness", "bin": "seq_mani", "args": ["--plan", "full:2,full:3:prune,core:4"], "timeout": 7200}],
+            "quick": [{"ws": "harness", "bin": "seq_mani", "args": [], "timeout": 1800},
+                      {"ws": "harness", "bin": "crash_mani", "args": ["--depth", 4], "timeout": 1800}],
+            "thorough": [{"ws": "harness", "bin": "seq_mani", "args": ["--plan", "full:2,full:3:prune,core:4"], "timeout": 7200},
+                         {"ws": "harness", "bin": "crash_mani", "args": ["--depth", 5], "timeout": 7200}],
         },
         "text": "Every sequence of edits (add, rm, info, combined, empty), rollovers and reopens up to depth 2 over a 163-symbol alphabet of hostile strings and keys and depth 3 over a 33-symbol core alphabet, at rollover ratios 1, 2 and 1000: in-memory state, state after reopen, Manifest::verify, and fragment chaining (each fragment begins with the roll-up of the complete state) must match a BTreeSet/BTreeMap model; newline must be refused; a second open of a locked manifest must fail, also from another process. Every truncation length of MANIFEST for 6 curated and all core histories <= 2: reopen yields a prefix state or an explicit error, never a partial edit, never a panic.",
-        "note": "Crash points between system calls of apply/rollover are enumerated by the crash explorer (crash_mani) when present; a layered alphabet replaces the infeasible full-alphabet depth 5.",
+        "note": "crash_mani: every history <= 4 (thorough 5) over a 9-symbol alphabet x ratios {1, 2, 1000} under the syscall journal, every crash point of the last operation (apply, rollover, open-time rollover) in both persistence models: reopen yields the state before or after the in-flight edit or an explicit error, and Manifest::verify reports nothing. A layered alphabet replaces the infeasible full-alphabet depth 5 in seq_mani.",
     },
     "C15": {
         "level": "exploration",
